@@ -237,3 +237,66 @@ Example migrate_refuses_zero_exponential_amount :
               lc_minters := [ {| lm_seq := 1; lm_end := None; lm_type := 2; lm_lin := None; lm_exp := Some (0, 100, 500000000000000000) |} ] |} in
   lconfig_valid c = true /\ migrate_minter_v3 c = Err.
 Proof. vm_compute. split; reflexivity. Qed.
+
+(* ------------------------------------------------------------------ v1.1.0: the distributor's state store *)
+Definition dcoins_of (d : Z) (cs : list (Z * Z)) : Z := zsum (map snd (filter (fun c => fst c =? d) cs)).
+Definition v1d_clean (s : v1dstate) : Prop :=
+  forallb (fun c => 0 <=? snd c) (vd_coins s) = true /\ (vd_burn s = false -> vd_acct s <> None).
+
+Lemma dkset_fresh_in {A} k (v : A) l e : In e (dkset k v l) -> e = (k, v) \/ In e l.
+Proof.
+  induction l as [|[k' v'] t IH]; cbn [dkset In]; [intuition|].
+  destruct (k <? k'); cbn [In]; [intuition|]. destruct (k =? k'); cbn [In]; intuition.
+Qed.
+
+Lemma dkset_fresh {A} (f : A -> Z) k (v : A) l : ~ In k (map fst l) ->
+  length (dkset k v l) = S (length l) /\ zsum (map (fun e => f (snd e)) (dkset k v l)) = f v + zsum (map (fun e => f (snd e)) l) /\
+  In (k, v) (dkset k v l) /\ (forall e, In e l -> In e (dkset k v l)) /\ (forall x, In x (map fst (dkset k v l)) <-> x = k \/ In x (map fst l)).
+Proof.
+  induction l as [|[k' v'] t IH]; cbn [dkset map fst snd zsum In length]; intros H.
+  - repeat split; try lia; try (left; reflexivity); intuition.
+  - destruct (k <? k') eqn:E1; cbn [map fst snd zsum In length].
+    + repeat split; try lia; try (left; reflexivity); intuition.
+    + destruct (k =? k') eqn:E2; [exfalso; apply H; left; lia|]. cbn [map fst snd zsum In length].
+      destruct IH as (A1 & A2 & A3 & A4 & A5); [tauto|]. split; [lia|]. split; [lia|]. split; [right; exact A3|].
+      split; [intros e [He|He]; [left; exact He|right; apply A4; exact He]|]. intros x. rewrite A5. intuition.
+Qed.
+
+(* when no two old states map to the same new key, nothing is negative and every non-burn state has an account, the migration
+   succeeds, stores exactly one new state per old state — under the key of its account, the burn state under the burn key
+   without account —, and every state keeps its remains; per denomination the store holds together what it held before *)
+Theorem v1_dstates_migration_keeps_remains bkey l :
+  NoDup (map (v1d_newkey bkey) l) -> Forall v1d_clean l ->
+  exists st, migrate_v1_dstates bkey l [] = Ok st /\ length st = length l /\
+    (forall s, In s l -> In (v1d_newkey bkey s, (vd_burn s, negb (vd_burn s), vd_coins s)) st) /\
+    forall d, zsum (map (fun e => dcoins_of d (snd (snd e))) st) = zsum (map (fun s => dcoins_of d (vd_coins s)) l).
+Proof.
+  intros Hnd Hcl.
+  assert (G : forall l acc, NoDup (map (v1d_newkey bkey) l) -> Forall v1d_clean l ->
+            (forall s, In s l -> ~ In (v1d_newkey bkey s) (map fst acc)) ->
+            exists st, migrate_v1_dstates bkey l acc = Ok st /\ length st = (length l + length acc)%nat /\
+              (forall s, In s l -> In (v1d_newkey bkey s, (vd_burn s, negb (vd_burn s), vd_coins s)) st) /\ (forall e, In e acc -> In e st) /\
+              forall d, zsum (map (fun e => dcoins_of d (snd (snd e))) st) =
+                        zsum (map (fun s => dcoins_of d (vd_coins s)) l) + zsum (map (fun e => dcoins_of d (snd (snd e))) acc)).
+  { clear l Hnd Hcl. induction l as [|s t IH]; intros acc Hnd Hcl Hfr; cbn [migrate_v1_dstates map zsum length].
+    - exists acc. split; [reflexivity|]. split; [reflexivity|]. split; [intros s []|]. split; [intros e He; exact He|]. intros d; lia.
+    - inversion Hnd as [|? ? Hni Hnd']; subst. inversion Hcl as [|? ? [Hpos Hac] Hcl']; subst.
+      replace (negb (vd_burn s) && match vd_acct s with None => true | Some _ => false end) with false
+        by (destruct (vd_burn s); [reflexivity|]; destruct (vd_acct s); [reflexivity|]; exfalso; apply Hac; reflexivity).
+      replace (existsb (fun c => snd c <? 0) (vd_coins s)) with false.
+      2:{ symmetry. apply Bool.not_true_iff_false. intros Hex. apply existsb_exists in Hex as (c & Hc & Hn).
+          rewrite forallb_forall in Hpos. specialize (Hpos c Hc). lia. }
+      set (k := v1d_newkey bkey s). set (v := (vd_burn s, negb (vd_burn s), vd_coins s)).
+      assert (Hk : ~ In k (map fst acc)) by (apply Hfr; left; reflexivity).
+      destruct (IH (dkset k v acc) Hnd' Hcl') as (st & E & Hlen & Hin & Hacc & Hsum).
+      { intros s' Hs' Hc. destruct (dkset_fresh (fun _ => 0) k v acc Hk) as (_ & _ & _ & _ & A5). apply A5 in Hc. destruct Hc as [Hc|Hc].
+        - apply Hni. unfold k in Hc. rewrite <- Hc. apply in_map. exact Hs'.
+        - apply (Hfr s'); [right; exact Hs'|exact Hc]. }
+      exists st. split; [exact E|]. destruct (dkset_fresh (fun _ => 0) k v acc Hk) as (L1 & _ & I1 & I2 & _).
+      split; [rewrite Hlen, L1; lia|]. split.
+      + intros s' [<-|Hs']; [apply Hacc; exact I1|apply Hin; exact Hs'].
+      + split; [intros e He; apply Hacc; apply I2; exact He|]. intros d. rewrite Hsum.
+        destruct (dkset_fresh (fun x => dcoins_of d (snd x)) k v acc Hk) as (_ & S1 & _). rewrite S1. subst v. cbn [snd]. lia. }
+  destruct (G l [] Hnd Hcl) as (st & E & Hlen & Hin & _ & Hsum); [intros s _ []|].
+  exists st. split; [exact E|]. split; [rewrite Hlen; cbn [length]; lia|]. split; [exact Hin|]. intros d. rewrite Hsum. cbn [map zsum]. lia.
+Qed.
